@@ -11,7 +11,7 @@ import (
 )
 
 func init() {
-	register("C19", checkC19, "The six hook call sites of the two clients are located through the type-checked program (invoke of a ClientHooks method on the client's hooks field) and compared by value identity of the abstract arguments, never by spelling. R19.1 BeforeWrite receives the same slice value as the transport Write and its guard dominates that Write. R19.2 AfterEachRead receives (received[total:total+n], n, err) where (n, err) are the results of the Read of this iteration and received[total:...] is the window that Read was given, with total taken before it is advanced; on every path from a Read to the next iteration or to a return the hook's guard is evaluated exactly once. R19.3 BeforeParse receives the value then passed to parseResponseFunc, which is do's result, and its guard dominates the parse. R19.4 each hook call sits in a block reached only on hooks != nil that contains nothing but argument computation, the call and a jump, and defines no value used elsewhere, so installing hooks cannot change the outcome. What a user hook does with the slices is outside the property. R19.3 additionally: BeforeParse and the parser run only when do() returned no error. R19.5 chunk accounting (C07 R7.2): total advances by each Read's count and the frame is a copy of received[0:total]. R19.6 every exported constructor taking a ClientConfig hands its Hooks on unchanged to the function that applies the configuration. R19.6 also requires guard purity: Hooks are installed under a condition on the Hooks field alone.")
+	register("C19", checkC19, "The six hook call sites of the two clients are located through the type-checked program (invoke of a ClientHooks method on the client's hooks field) and compared by value identity of the abstract arguments, never by spelling. R19.1 BeforeWrite receives the same slice value as the transport Write and its guard dominates that Write. R19.2 AfterEachRead receives (received[total:total+n], n, err) where (n, err) are the results of the Read of this iteration and received[total:...] is the window that Read was given, with total taken before it is advanced; on every path from a Read to the next iteration or to a return the hook's guard is evaluated exactly once. R19.3 BeforeParse receives the value then passed to parseResponseFunc, which is do's result, and its guard dominates the parse. R19.4 each hook call sits in a block reached only on hooks != nil that contains nothing but argument computation, the call and a jump, and defines no value used elsewhere, so installing hooks cannot change the outcome. What a user hook does with the slices is outside the property. R19.3 additionally: BeforeParse and the parser run only when do() returned no error. R19.5 chunk accounting (C07 R7.2): total advances by each Read's count and the frame is a copy of received[0:total]. R19.6 every exported constructor taking a ClientConfig hands its Hooks on unchanged to the function that applies the configuration. R19.6 also requires guard purity: Hooks are installed under a condition on the Hooks field alone. R19.7 = C08 R8.7 (the connection read from is the dialer's own result).")
 }
 
 func checkC19(c *Ctx, r *Report) {
